@@ -164,7 +164,7 @@ fn run_set<S: PS>(ctx: &Ctx) -> Acc {
         }
         // hostile accepted private keys
         let spats = [SPat::AllMinus, SPat::AllPlus, SPat::Alternating, SPat::Zero, SPat::Random, SPat::NttSparse];
-        let tpats = [T0Pat::AllTop, T0Pat::AllBottom, T0Pat::RandomExtremes, T0Pat::Random, T0Pat::Zero, T0Pat::NttSparse];
+        let tpats = [T0Pat::AllTop, T0Pat::AllBottom, T0Pat::RandomExtremes, T0Pat::Random, T0Pat::Zero, T0Pat::NttSparse, T0Pat::SparseSmall];
         let sp = spats[ji % 6];
         let tp = tpats[(ji / 6) % 6];
         let sk = gen::hostile_sk(&mut g, p, sp, tp);
